@@ -228,7 +228,9 @@ def small_diagrams(max_boxes=3, max_arity=2, max_width=3):
 
 
 def enum_cases(tier):
-    for dom, layers in small_diagrams():
+    shapes = small_diagrams(4, 2, 3) if tier == "thorough"\
+        else small_diagrams()
+    for dom, layers in shapes:
         spec = {"cls": "monoidal", "dom": [["a", 0]] * dom, "layers": [
             [{"k": "box", "name": "f%d" % k, "dom": [["a", 0]] * nd,
               "cod": [["a", 0]] * nc, "dag": False}, off]
